@@ -17,6 +17,7 @@ theorem new_times_ordered_binary32 (chk : Bool) (s e : State SF) (mv ma : Quanti
   new_times_ordered chk s e mv ma mp mul_e9_mono toInt_mono le_add_of_nonneg le_trans' toInt_zero_mul h
 
 /-! ### non-vacuity: the constructor succeeds on binary32 data, with operations that really round -/
+namespace Binary32Examples
 
 /-- the test-suite's first profile (0 → 3 mm, max 0.1 mm/s, 0.01 mm/s²) with the binary32 values of `0.1` and `0.01` -/
 def exStart : State SF := ⟨c0, c0, c0⟩
@@ -46,5 +47,7 @@ example : ∃ mp, MotionProfile.new true exStart exEnd exMv exMa = .ok mp ∧ 0 
 /-- a profile the constructor rejects in binary32 (negative `t1`: start velocity above the maximum), so `h` is a real
 hypothesis -/
 example : (MotionProfile.new true (⟨c0, c1, c0⟩ : State SF) exEnd exMv exMa).toOption.isNone = true := by decide +kernel
+
+end Binary32Examples
 
 end Rrtk.Thm.C06
